@@ -261,6 +261,16 @@ class Net:
             self.fault_fired = f"write:{kind}"
             e["fault"] = self.fault_fired
             if kind == 1:
+                # a write that times out may already have handed a prefix of the buffer to the transport: the byte
+                # stream is torn from here on (weakest back-end contract)
+                if len(data) > 1 and sock.open:
+                    half = data[: len(data) // 2]
+                    e["delivered"] = half
+                    sock.sent.append((depth, half))
+                    assert sock.peer is not None
+                    call_native(sock.peer.receive, half)
+                    sock.pump()
+                    sock.torn_at = len(self.ledger)  # type: ignore[attr-defined]
                 raise httpcore.WriteTimeout("injected")
             if kind == 2 and len(data) > 1 and sock.open:
                 half = data[: len(data) // 2]
